@@ -36,6 +36,10 @@ MUTATORS = ['row_fn', 'add_field', 'add_computed', 'set_type', 'find_replace']
 BUFFERING = {'sort_rows', 'join', 'duplicate', 'set_pk_dedupe'}   # not "row-wise streaming" (C06)
 
 
+# file names given to stream(): endings that share characters with the '.active' suffix of the temporary name included
+STREAM_FILE_NAMES = ['stream.ndjson', 'out.jsonl', 'capture', 'run1.state', 'latest.archive', 'data.native', 'x.active', 'a']
+
+
 # ----------------------------------------------------------------------------- inputs
 @st.composite
 def input_resource(draw, name, sizes=(0, 1, 2, 3, 5), types=None):
@@ -343,7 +347,7 @@ def build(spec, env):
         env.cap('dump_to_zip').append(p)
         return d.dump_to_zip(p, **({'add_filehash_to_path': True} if spec.get('filehash') else {}))
     if k == 'stream_file':
-        p = env.path('stream.ndjson')
+        p = env.path(spec.get('name', 'stream.ndjson'))
         env.cap('stream_file').append(p)
         return d.stream(p)
     if k == 'checkpoint':
@@ -610,7 +614,9 @@ def _draw_spec(draw, state, kinds, counter):
         return {'k': k, 'format': draw(st.sampled_from(['csv', 'csv', 'json'])), 'filehash': draw(st.sampled_from([False, False, True]))}
     if k == 'dump_to_zip':
         return {'k': k, 'filehash': draw(st.sampled_from([False, False, True]))}
-    if k in ('stream_file', 'checkpoint'):
+    if k == 'stream_file':
+        return {'k': k, 'name': draw(st.sampled_from(STREAM_FILE_NAMES))}
+    if k == 'checkpoint':
         return {'k': k}
     if k == 'finalizer':
         return {'k': k, 'with_stats': draw(st.booleans())}
